@@ -22,7 +22,7 @@ SPEC_FUNCS = {
     "log_pos", "yielded", "exists_event", "all_events", "isinstance_",
     "truthy", "mem", "count_held", "seq", "select", "glob0", "obj", "strip",
     "split", "join", "cfg", "reaches", "no_event_between", "log_len", "the",
-    "split_ws", "as_", "tail", "has_loop", "ordered", "count_events", "pre", "app_call", "dynattr", "seq1", "prefix_of", "unbox", "is_bound", "obj_id", "cls_is", "cls_id_is",
+    "split_ws", "as_", "tail", "has_loop", "ordered", "count_events", "pre", "app_call", "dynattr", "seq1", "prefix_of", "unbox", "is_bound", "obj_id", "cls_is", "cls_id_is", "no_lock_held",
 }
 
 
@@ -244,6 +244,8 @@ class SpecMixin:
         if name == "held":
             v = val(a[0])
             return VBool(z3.Or([h == v.t for h in st.held] or [z3.BoolVal(False)]))
+        if name == "no_lock_held":
+            return VBool(z3.BoolVal(len(st.held) == 0))
         if name == "count_held":
             v = val(a[0])
             return VInt(z3.Sum([z3.If(h == v.t, 1, 0) for h in st.held] or [z3.IntVal(0)]))
@@ -682,8 +684,8 @@ class VerifyMixin:
         self.user_call_hooks = hooks
         self.at_call_hooks = [(ck, self._mk_call_hook(key, ck, label, expr, prop, spec_env, old))
                               for ck, label, expr, prop in getattr(c, "at_call_", [])]
-        for ck, paths, guar, _tag in getattr(c, "yield_at_", []):
-            self.at_call_hooks.append((ck, self._mk_yield_hook(paths, guar, spec_env, old)))
+        for ck, paths, guar, _tag, when in getattr(c, "yield_at_", []):
+            self.at_call_hooks.append((ck, self._mk_yield_hook(paths, guar, spec_env, old, when)))
         outs = self.exec_block(fnode.body, s)
         self.user_call_hooks = []
         self.at_call_hooks = []
@@ -705,8 +707,15 @@ class VerifyMixin:
                          kind="user-call", site=engine.site(node))
         return hook
 
-    def _mk_yield_hook(self, paths, guarantee, env, old):
+    def _mk_yield_hook(self, paths, guarantee, env, old, when=None):
         def hook(engine, cenv, st, node):
+            engine._havoc_mod = None
+            if when is not None:
+                w = z3.simplify(engine.spec_eval(when, st, dict(env), old=old))
+                if z3.is_false(w):
+                    return
+                if not z3.is_true(w):
+                    raise EngineError(f"yield point condition {when!r} is not decided at the call")
             for p_ in paths:
                 engine.havoc_path(p_, st, env)
             if guarantee:
